@@ -236,7 +236,37 @@ def r19_5(run, model):
     run.floor("name-formatting sites in counter-bumping functions", n, 2)
 
 
+def r19_6(run, model):
+    run.rule("R19.6", "closure environment fields are unique: make_field_name puts the field's position into the name on every path (the "
+                      "sanitised variable name alone is not injective: `x` / `x_`, `a_b` / `a__b` sanitise to the same text)")
+    LIFT = "crates/compiler/src/lift.rs"
+    f = model.fn("make_field_name", LIFT)
+    idx = [p["pat"]["name"] for p in f.params() if not p["self"] and "usize" in (p["ty"] or "")]
+    if not idx:
+        raise AnalysisIncomplete("make_field_name: index parameter not found")
+    ix = idx[0]
+    # the value returned: tail expression; every format!/string it can evaluate to must mention the index
+    tail = f.body["stmts"][-1] if f.body["stmts"] else None
+    te = tail.get("expr") if tail is not None and tail["k"] == "ExprStmt" else None
+    ok = False
+    detail = "no tail expression"
+    if te is not None:
+        tt = S.norm_ws(run.facts.text(LIFT, te["sp"]))
+        if te["k"] == "Macro" and te["name"] == "format":
+            ok = re.search(r"\b" + ix + r"\b", te.get("tokens", "")) is not None
+        else:
+            # e.g. `sanitize(..).unwrap_or_else(|| format!(.., index))`: the Some path returns a name without the index
+            ok = False
+        detail = f"returns `{tt[:70]}`"
+    run.ob("R19.6", "make_field_name|index in every field name", ok, site(LIFT, f.node["sp"]), detail,
+           witness="a closure capturing `x` and `x_`: the env struct declares field x twice and both variables rebind from it")
+
+
 def run(run, model):
+    run.try_rule(r19_6, model)
+    from rules import c02
+    run.rule("R19.7", "every Go name slot is mangled (shared with C02 R02.8): a selector written with the raw goml name may be a Go keyword")
+    run.try_rule(c02.r02_8, model)
     run.try_rule(r19_5, model)
     run.try_rule(r19_1, model)
     run.try_rule(r19_2, model)
